@@ -457,6 +457,34 @@ def r6_child_arguments(ctx, rep, R='C03.R6'):
               key='child-args:recorded', func=fc.qualname, where=ctx.where(fc, fc.node))
 
 
+def default_dot_stores(ctx, fo, T):
+    """statements of get_options that store the match-everything default in *T* (``options.test`` /
+    ``options.module``): ``T = T or ['.']``, or ``T = ['.']`` under a guard that says T is empty
+    (``if not T:``, also through a flag local such as ``module_set = bool(T)``)"""
+    from .common import expander, guard_literals
+    exp = expander(fo.node, only=lambda v: dotted(v) is not None or isinstance(v, ast.Constant) or (
+        isinstance(v, ast.Call) and dotted(v.func) == 'bool'))
+    out = []
+    for n in ast.walk(fo.node):
+        if not (isinstance(n, ast.Assign) and any(norm(t) == T for t in n.targets)):
+            continue
+        v = n.value
+
+        def is_dot(e):
+            return isinstance(e, (ast.List, ast.Tuple)) and len(e.elts) == 1 and \
+                isinstance(e.elts[0], ast.Constant) and e.elts[0].value == '.'
+        if isinstance(v, ast.BoolOp) and isinstance(v.op, ast.Or) and norm(v.values[0]) == T and is_dot(v.values[-1]):
+            out.append(n)
+        elif is_dot(v):
+            for e, pos in guard_literals(ctx, fo, n, expand_bools=False):
+                t = norm(exp(e))
+                if (t == T and not pos) or (t == 'bool(%s)' % T and not pos) or \
+                        (t in ('not %s' % T, 'not bool(%s)' % T) and pos):
+                    out.append(n)
+                    break
+    return out
+
+
 def cmdline_list_name(fi, handed='args'):
     """the local in which the child command line is built: the list handed to Popen (role name
     ``args``), or -- when that name is only an alias / a rendering of another list on every path
@@ -666,12 +694,8 @@ def r10_positional_filters(ctx, rep, R='C03.R10'):
         # the "select everything" default (options.<list> = options.<list> or ['.']) is applied after
         # the positional filter was merged in: a pattern added to a list that already holds '.'
         # restricts nothing ('.' matches every name), so everything the filter excludes is selected
-        dflt = [nd for nd in g.nodes if nd.kind == 'stmt' and isinstance(nd.ast, ast.Assign) and
-                any(norm(t) == T for t in nd.ast.targets) and isinstance(nd.ast.value, ast.BoolOp) and
-                isinstance(nd.ast.value.op, ast.Or) and any(
-                    isinstance(v, (ast.List, ast.Tuple)) and any(
-                        isinstance(e_, ast.Constant) and e_.value == '.' for e_ in v.elts)
-                    for v in nd.ast.value.values)]
+        dstmts = default_dot_stores(ctx, fo, T)
+        dflt = [nd for nd in g.nodes if nd.kind == 'stmt' and any(nd.ast is d_ for d_ in dstmts)]
         late = [x for d_ in dflt for x in sites if x.id in g.reach([d_.id], edge_ok=lambda s_, d2, k_: k_ != 'exc')]
         rep.check(not late, R, 'the match-everything default of %s is applied after the positional filter was merged' % T,
                   'the positional %s is added to %s after the default [\'.\'] was stored there (L%s): the '
